@@ -80,9 +80,12 @@ CHECKS["C03"] = dict(category="exploration",
            "genes) with 1-4 generated rules (mixed cutoffs/neighbourhoods in bases, SUPERIORS chains, EXTENDERS); the anchors captured from "
            "apply_cluster_rules are grouped into connected components of 'distance < cutoff' on the ring model and compared with the reported "
            "cores (partition, hull / minimal arc, extender edges), neighbourhood extension (clipped/wrapped) and two-sided superior removal. "
-           "All placements of three genes on rings of length 9..11 (thorough 14) x cutoffs {1,2,3,7} are enumerated.",
-      note="Anchors are taken as the code reports them (C01 decides their correctness). Groups whose smallest covering arc is >= L/2, "
-           "partial superior overlap and extender must-admit on overlapping gene layouts are counted but not asserted (see DESIGN.md section 7).",
+           "All placements of three genes on rings of length 9..11 (thorough 14) x cutoffs {1,2,3,7} are enumerated. Focused families: "
+           "superior/inferior hits on shared genes, layered rule hierarchies (transitive superiors), extender chains of disjoint genes, and "
+           "extenders among nested / overlapping / multi-exon / origin-crossing genes rotated to any offset.",
+      note="Anchors are taken as the code reports them (C01 decides their correctness). Groups and extended cores whose smallest covering "
+           "arc is >= L/2 and partial superior overlap are counted but not asserted; extender must-admit holds on every layout by exon "
+           "distance, distance == cutoff either way (see DESIGN.md sections 7 and 8.3).",
       design="3/C03")
 CHECKS["C15"] = dict(category="exploration",
       technique="exhaustive enumeration of short codon strings x strand x offset x record length x minimum length and of gene layouts on ORF-dense rings, plus Hypothesis DNA/layout generators, against an independent ORF scanner and Biopython extraction",
@@ -98,8 +101,10 @@ CHECKS["C18"] = dict(category="exploration",
       text="parallel_function / parallel_execute / pre_process_sequences(cpus=k) are run for k=1..16 and batch sizes around k with "
            "generated delay vectors that force out-of-order completion (observed in ~75% of cases), payloads from ints to annotated "
            "Records with origin-spanning areas (canonical dump incl. cds_children sections), and compared with the sequential result; "
-           "a raising call, an unpicklable result, a timeout or a killed worker must surface as an exception. Each case runs in its own "
-           "process group so that a hang cannot outlive the case.",
+           "a raising call (every exception class of antismash.common.errors), an unpicklable result, a timeout or a killed worker must "
+           "surface as an exception within a deadline. The real genefinding module and prodigal wrapper are driven with a stand-in "
+           "executable whose output shows its command line: each record alone vs batches in both orders at 1..k workers. Each case runs "
+           "in its own process group so that a hang cannot outlive the case.",
       note="OS-level interleavings are not enumerated; a worker death without a timeout (multiprocessing blocks forever) is outside the technique.",
       design="3/C18")
 CHECKS["C07"] = dict(category="exploration",
@@ -133,10 +138,10 @@ CHECKS["C05"] = dict(category="exploration",
 CHECKS["C11"] = dict(category="exploration",
       technique="Hypothesis results objects built by each module's own code from generated content, with generated save/regenerate/change-setting step lists inside the spec; oracle = byte-identical JSON and identical record side effects, refusal on changed settings",
       text="RuleDetectionResults/HMMDetectionResults (real detection with dynamic profiles), SideloadedResults, NRPSPKSDomains/Module/Component, "
-           "HmmerResults/TIGRFam (incl. refilter), HMMResult trees and TTAResults are saved through antismash.common.json and regenerated via "
+           "HmmerResults/TIGRFam (incl. refilter), HMMResult trees, TTAResults, RREFinder (threshold histories) and 13 further modules (pfam2go, tfbs_finder, t2pks, terpene, active_site_finder, smcog_trees, the four RiPP modules, cassis, nrps_pks specificities, genefunctions; built by run_on_record with only the external front ends replaced) are saved through antismash.common.json and regenerated via "
            "Class.from_json, module.regenerate_previous_results or main.run_module over 1-4 cycles; unchanged settings must give byte-identical "
-           "JSON and identical record snapshots, changed schema/record/strictness/rules/multipliers/thresholds must give None or an exception.",
-      note="No external binaries are run; HMMER front ends are replaced by generated hits. Area formation after reuse is left to C05/C10/C17.",
+           "JSON and identical record snapshots, changed schema/record/strictness/rules/multipliers/thresholds must give None or an exception. A results file written the way main does is read back with the real main.read_data and reused over 1-2 cycles (records with and without regions).",
+      note="No external binaries are run; HMMER/BLAST/MEME/SVM front ends are replaced by generated hits. clusterblast-family and cluster_compare results are not covered (they cannot be built without their databases). Area formation after reuse is left to C05/C10/C17.",
       design="3/C11")
 CHECKS["C19"] = dict(category="exploration",
       technique="Hypothesis region layouts (windows rotated onto the ring so that each origin branch is reached, with branch counters) and direct predicates on build_area_rows / js.convert_regions output",
